@@ -64,6 +64,8 @@ def parseOp (j : Json) : Except String Op := do
 def parseOpH (j : Json) : Except String OpH := do
   match ← getStr j "op" with
   | "lock" => return .lock (← getNat j "t") (← getNat j "p")
+  -- `t.e_ = True`: the Event parameter fires its own watchers and resets itself; nothing of the model's world moves
+  | "trigger" => return .base (.update (← getNat j "t") [])
   | _ => return .base (← parseOp j)
 
 def parseHook (j : Json) : Except String Hook := do
@@ -234,7 +236,7 @@ def handle (req : Json) : Except String Json := do
       | none => []
     let constFlags (ds : List PDecl) : List Int := ds.map fun d => if d.constant || d.readonly then 1 else 0
     let aux0 : List (List Int) := ((tds.take w1.tgts.length).map fun td =>
-      [0, 0, 0] ++ constFlags (td.1.map (·.1)) ++ constFlags (td.1.map (·.1)) ++ td.1.map (fun _ => 1)) ++ dynRow
+      [0, 0, 0] ++ constFlags (td.1.map (·.1)) ++ constFlags (td.1.map (·.1)) ++ td.1.map (fun _ => 1) ++ [1]) ++ dynRow
     let sub := (getOpt case "sub").bind (·.getBool?.toOption) |>.getD false
     let own0 : List (List Int) := tds.map fun td => td.1.map fun _ => if sub then 0 else 1
     if !hcfg.ok c then throw "hooks: a hook assigns the parameter it watches, or hooks chain"
